@@ -318,7 +318,9 @@ struct Comment;
 impl Lexer for Comment {
     fn lex(input: Span) -> IResult {
         let start = input.location_offset();
-        let (input, comment) = delimited(tag("//"), take_till(|c| c == '\n'), tag("\n"))(input)?;
+        // a comment ends with the line or, in the last line, with the text
+        let (input, comment) =
+            delimited(tag("//"), take_till(|c| c == '\n'), alt((tag("\n"), eof)))(input)?;
         let end = input.location_offset();
         Ok((
             input,
